@@ -139,7 +139,7 @@ def f_module(m):
     out = []
     for alias, path, explicit in m["imports"]:
         out.append('import "%s"%s;\n' % (path, (" as " + alias) if explicit else ""))
-    return "".join(out) + "\n" + "\n".join(f_decl(d) for d in m["decls"])
+    return "".join(out) + "\n" + "\n".join(f_decl(d) for d in m["decls"]) + m.get("raw", "")
 
 # ------------------------------------------------------------------ renderer: Coq
 def q(s): return '"%s"' % s
@@ -558,6 +558,30 @@ def main(run):
                 replay["expected"] = "accepted"
                 run.violation("overreject:" + key, "allowed access rejected: %s: %s" % (c.what, "; ".join(
                     ["not exported %s" % (x,) for x in c.ne] + ["private %s" % x for x in c.pf] + c.other[:2])), replay)
+    # ---- reference-free family: a method declared in ANOTHER module on the type (receiver by value, & or &') must not open the
+    # private fields of that type (found on the unmodified tree, repaired by 8e6eec9: the `&other::T` receiver slipped past the
+    # "cannot define methods on types from other modules" rule and read v.y)
+    freqs, fmeta = [], []
+    for shape in ("direct", "alias"):
+        lib_path = {"direct": "proj/lib", "alias": "proj/utils/lib"}[shape]; alias = alias_of(shape)
+        for recv in ("", "&", "&'"):
+            for body, what in (("return v.y;", "read"), ("v.y = 3; return 0;", "write"), ("return v.X;", "read-exported")):
+                if what == "write" and recv != "&'": continue
+                raw = "\nfn (v: %s%s::Point) Leak() -> i32 { %s }\n" % (recv, alias, body)
+                mods = [lib_module(lib_path), dict(path="proj/main", imports=[(alias, lib_path, shape == "alias")],
+                                                    decls=[("DFn", "main", [], ("TVoid",), ("SSkip",))], raw=raw)]
+                entry, files = write_project(mods, work.sub("fr%d" % len(freqs)))
+                freqs.append(dict(id=len(freqs), file=entry, mode="t")); fmeta.append((shape, recv, what, files))
+    fres = common.batch_compile(freqs)
+    for i, (shape, recv, what, files) in enumerate(fmeta):
+        run.case(files["proj/main.fer"], nontrivial=True); run.count("ctx:foreign_receiver_method")
+        if fres[i]["panic"]:
+            run.violation("panic:foreign-receiver", "compiler panicked on a method with a receiver of another module's type", {"files": files})
+        elif fres[i]["ok"]:
+            run.violation("unchecked:foreign-receiver:%s:%s" % (recv or "value", what),
+                          "a method declared outside the module of lib's Point with receiver `%s%s::Point` is accepted%s"
+                          % (recv, alias_of(shape), " and accesses the private field y through it" if what != "read-exported" else ""),
+                          {"files": files, "entry": "proj/main.fer", "cmd": "ferret -t proj/main.fer", "expected": "rejected"})
     # ---- correspondence with the model (vm_compute)
     bad_total = []
     SH = 220
